@@ -185,6 +185,12 @@ func c06(c *Ctx) {
 				okC, whyC = false, "a data frame can be returned at "+c.P.Pos(p.Ret.Pos())+" without the strict comparison of the running sum against Conn.readLimit"
 			}
 			for k := storeIdx + 1; k < len(p.Events); k++ {
+				// the 4 bytes of the mask key are header, not payload: reading them after the accounting is fine
+				if e := &p.Events[k]; callsStatic(e, rd.read) && len(e.Args) == 2 {
+					if n, isC := e.Args[1].Int64(); isC && n == 4 {
+						continue
+					}
+				}
 				if rd.usesBr(&p.Events[k]) || callsStatic(&p.Events[k], rd.read) {
 					okC, whyC = false, "transport read after the limit accounting on a data-frame path"
 				}
@@ -362,6 +368,31 @@ func c06(c *Ctx) {
 	// ---- limit owner
 	for _, s := range c.P.FieldStoreSites(rd.readLimit) {
 		_, isParam := s.Val.(*ssa.Parameter)
+		// or the parameter clamped: 0 ("no limit") on the paths that know the parameter to be <= 0
+		if !isParam && shortFn(s.Parent()) == "(*Conn).SetReadLimit" {
+			fn := s.Parent()
+			good, n := true, 0
+			c.explore("C06.limit-owner", fn, core.Opts{}, func(p *core.Path) {
+				for i := range p.Events {
+					ev := &p.Events[i]
+					if ev.Kind != core.EvStore || !isFieldAddr(ev.Addr, rd.readLimit) {
+						continue
+					}
+					n++
+					prm := p.X.ParamTerm(fn.Params[1])
+					if ev.Val == prm {
+						continue
+					}
+					if z, isC := ev.Val.Int64(); isC && z == 0 {
+						if hi, has := p.X.Upper(prm); has && hi <= 0 {
+							continue
+						}
+					}
+					good = false
+				}
+			})
+			isParam = good && n > 0
+		}
 		r.Check("C06.limit-owner", shortFn(s.Parent()), "store-readLimit", s.Pos(), isParam && shortFn(s.Parent()) == "(*Conn).SetReadLimit", "Conn.readLimit may only be assigned from the parameter of SetReadLimit")
 	}
 	r.Floor("C06.limit-owner", 1)
